@@ -221,7 +221,7 @@ def h_inspect_small(e, mnems, mode, cfg=None):
             e.assume(land(cond(">=", reg0(10), 2**14), cond("<=", reg0(10), 2**14 + 7)))
             continue
         a = zx(reg0(f["rs1"]) + f["imm"], 32)
-        e.assume(land(cond(">=", a, 2**14), cond("<=", a, 2**14 + 7)))
+        e.assume(land(cond(">=", a, 2**14), cond("<=", a, 2**14 + (15 if cfg and cfg[4] >= 4 else 7))))
         if len(mnems) >= 3:
             e.assume(cond("==", a & 3, 0))  # longer programs: the two word addresses only
         e.assume(cond("!=", f.get("rd", 1), f["rs1"]) if "rd" in f else True)
@@ -418,6 +418,8 @@ CFGS = [None, ("wb", "lru", 1, 0, 2), ("wt", "plru", 1, 1, 2)]
 SMALL_CFGS = [None, ("wb", "lru", 0, 0, 2), ("wt", "plru", 0, 0, 2), ("wb", "lru", 1, 0, 2)]
 # direct-mapped single block: every access to the other word evicts (write-back: writes back)
 EVICT_CFGS = [("wb", "lru", 0, 0, 1), ("wt", "lru", 0, 0, 1)]
+# four ways, one set, four candidate words: partially filled sets whose valid ways are not a prefix
+WIDE_CFGS = [("wb", "plru", 0, 0, 4), ("wt", "lru", 0, 0, 4)]
 
 
 def jobs(tier, seed):
@@ -449,6 +451,11 @@ def jobs(tier, seed):
         for ci, cfg in enumerate(EVICT_CFGS):
             for sk in ((["sw", "ecall"], ["sw", "lw", "sw"]) if quick else (["sw", "ecall"], ["sw", "ecall", "lw"], ["sw", "lw", "sw"], ["sb", "ecall", "sw"], ["sw", "sw", "lw"])):
                 out.append(dict(common, label="evict%s-c%d:%s" % (ms, ci, ",".join(sk)), harness="small", args={"mnems": sk, "mode": mode, "cfg": cfg}, cost=25, validate_every=2))
+    for mode in MODES:
+        ms = "1" if mode.startswith("single") else "5"
+        for ci, cfg in enumerate(WIDE_CFGS):
+            for sk in ((["lw", "lw"],) if quick else (["lw", "lw"], ["sw", "lw"], ["lw", "lw", "lw"])):
+                out.append(dict(common, label="wide%s-c%d:%s" % (ms, ci, ",".join(sk)), harness="small", args={"mnems": sk, "mode": mode, "cfg": cfg}, cost=60, validate_every=4))
     for mode in MODES:
         for which in SPECIAL_TEXTS:
             out.append(dict(common, label="text%s:%s" % ("1" if mode.startswith("single") else "5", which), harness="text", args={"which": which, "mode": mode, "cfg": CFGS[1] if which == "mixed" else None}, cost=30, validate_every=2))
